@@ -18,6 +18,7 @@ def load():
     import thejoker
     if not os.path.realpath(thejoker.__file__).startswith(os.path.realpath(kernel.REPO)):
         raise kernel.KernelError("thejoker imported from %s, not from %s" % (thejoker.__file__, kernel.REPO))
+    kernel.cross_check()
     thejoker.logging.logger.setLevel(logging.ERROR)
     logging.getLogger("pymc").setLevel(logging.ERROR)
     _loaded = info
